@@ -507,6 +507,15 @@ bool OPNMIDIplay::realTime_NoteOn(uint8_t channel, uint8_t note, uint8_t velocit
         // Don't even try to play the blank instrument! But, insert the dummy note.
         MIDIchannel::notes_iterator i = midiChan.ensure_find_or_create_activenote(note);
         MIDIchannel::NoteInfo &dummy = i->value;
+        // The entry is new and has no constructor: give every field a value, the note
+        // lists are walked by code that reads them (voice allocation, gliding)
+        dummy.vol = 0;
+        dummy.vibrato = 0;
+        dummy.noteTone = static_cast<int16_t>(note);
+        dummy.currentTone = note;
+        dummy.glideRate = HUGE_VAL;
+        dummy.midiins = midiins;
+        dummy.isPercussion = isPercussion;
         dummy.isBlank = true;
         dummy.isOnExtendedLifeTime = false;
         dummy.ttl = 0;
